@@ -92,12 +92,38 @@ func findModuleAndIsExternal(y Definition, prefix string) (*Module, bool, error)
 		// to or one of its submodules, all of that is merged into the module
 		return mainModule(m), false, nil
 	}
-	sub, found := m.imports[prefix]
-	if !found {
+	sub := findImport(m, prefix)
+	if sub == nil {
 		if m.belongsTo != nil && m.belongsTo.prefix == prefix {
-			return mainModule(m), true, nil
+			// the prefix of the module a submodule belongs to is the submodule's own prefix:
+			// the same as no prefix (RFC7950 Sec 6.4.1), every enclosing scope is searched
+			return mainModule(m), false, nil
 		}
 		return nil, true, errors.New("module not found " + prefix)
 	}
+	if sub.module == nil && m.belongsTo != nil {
+		// what a submodule imports is loaded as an import of the module it belongs to
+		for _, loaded := range mainModule(m).imports {
+			if loaded.moduleName == sub.moduleName && loaded.module != nil {
+				return loaded.module, true, nil
+			}
+		}
+	}
+	if sub.module == nil {
+		return nil, true, errors.New("module not loaded " + sub.moduleName)
+	}
 	return sub.module, true, nil
+}
+
+// imports are kept by module name until the module is resolved and by prefix afterwards
+func findImport(m *Module, prefix string) *Import {
+	if i, found := m.imports[prefix]; found && i.prefix == prefix {
+		return i
+	}
+	for _, i := range m.imports {
+		if i.prefix == prefix {
+			return i
+		}
+	}
+	return nil
 }
